@@ -131,11 +131,11 @@ struct Model {
     appr: [Option<(W, u32)>; TOKENS],
     /// (owner, operator) -> live_until of the latest accepted, not revoked approve_for_all
     oper: BTreeMap<(W, W), u32>,
-    // ---- history facts used ONLY to name the role of a signer in the coverage counters ----
+    /// history fact used ONLY to name the role of a signer in the coverage counters. (Roles
+    /// such as "approval revoked / cleared by a move" cannot be kept this way: the state after
+    /// approve + revoke IS the state before, so the two histories are merged — those roles are
+    /// exercised by the authority-loss probes in `step` instead.)
     former_owner: [BTreeSet<W>; TOKENS],
-    cleared_appr: [BTreeSet<W>; TOKENS],
-    revoked_appr: [BTreeSet<W>; TOKENS],
-    revoked_oper: BTreeSet<(W, W)>,
 }
 
 impl Model {
@@ -179,15 +179,6 @@ impl Model {
             if let Some(l) = self.oper.get(&(o, s)) {
                 r.push(if self.now <= *l { "operator" } else { "expired-operator" });
             }
-            if self.revoked_oper.contains(&(o, s)) && !self.oper.contains_key(&(o, s)) {
-                r.push("revoked-operator");
-            }
-        }
-        if self.cleared_appr[id].contains(&s) {
-            r.push("former-approved(cleared-by-move)");
-        }
-        if self.revoked_appr[id].contains(&s) {
-            r.push("revoked-approved");
         }
         if self.former_owner[id].contains(&s) && o != Some(s) {
             r.push("former-owner");
@@ -217,25 +208,13 @@ impl Model {
         match op {
             Op::Approve { approved, id, live, .. } => {
                 let id = *id as usize;
-                if *live == 0 {
-                    if let Some((a, _)) = self.appr[id] {
-                        self.revoked_appr[id].insert(a);
-                    }
-                    self.appr[id] = None;
-                } else {
-                    self.appr[id] = Some((*approved, *live));
-                    self.revoked_appr[id].remove(approved);
-                    self.cleared_appr[id].remove(approved);
-                }
+                self.appr[id] = if *live == 0 { None } else { Some((*approved, *live)) };
             }
             Op::ApproveAll { owner, op, live, .. } => {
                 if *live == 0 {
-                    if self.oper.remove(&(*owner, *op)).is_some() {
-                        self.revoked_oper.insert((*owner, *op));
-                    }
+                    self.oper.remove(&(*owner, *op));
                 } else {
                     self.oper.insert((*owner, *op), *live);
-                    self.revoked_oper.remove(&(*owner, *op));
                 }
             }
             Op::Transfer { to, id, .. } | Op::TransferFrom { to, id, .. } => self.moved(*id as usize, Some(*to)),
@@ -244,9 +223,7 @@ impl Model {
         }
     }
     fn moved(&mut self, id: usize, to: Option<W>) {
-        if let Some((a, _)) = self.appr[id].take() {
-            self.cleared_appr[id].insert(a);
-        }
+        self.appr[id] = None;
         if let Some(o) = self.owner[id] {
             self.former_owner[id].insert(o);
         }
@@ -474,6 +451,71 @@ impl Nft {
     }
 }
 
+impl Nft {
+    /// Every account that could move (or approve) a token before the accepted step and, by the
+    /// model, cannot any more — approval cleared by the move, revoked, replaced, expired; operator
+    /// dismissed, expired, or operator of the FORMER owner; former owner — immediately tries every
+    /// way of moving (approving) it. All of these calls have to be refused (a refused call leaves
+    /// the state untouched, so the probes do not disturb the exploration); they also run on the
+    /// states of the last level, which the BFS does not expand.
+    fn probe_lost_authority(&self, i: &Inst, pre: &Model, post: &Model, op: &Op, cx: &mut StepCtx<Self>) -> Result<(), Violation> {
+        let kind = self.kind(op);
+        let max = i.e.ledger().max_live_until_ledger();
+        for id in 0..TOKENS {
+            let idu = id as u32;
+            for x in ALL {
+                let mut role: Vec<&str> = vec![];
+                if pre.owner[id] == Some(x) {
+                    role.push("owner");
+                }
+                if pre.appr_live(id) == Some(x) {
+                    role.push("approved");
+                }
+                if pre.owner[id].is_some_and(|o| pre.oper_live(o, x)) {
+                    role.push("operator");
+                }
+                let role = role.join("+");
+                let mut probes: Vec<Op> = vec![];
+                if pre.may_move(id, x) && !post.may_move(id, x) {
+                    let froms: BTreeSet<W> = [pre.owner[id], post.owner[id]].into_iter().flatten().collect();
+                    for f in froms {
+                        let to = if x != f { x } else { f.recipients()[0] };
+                        probes.push(Op::TransferFrom { spender: x, from: f, to, id: idu, by: Some(x) });
+                        probes.push(Op::BurnFrom { spender: x, from: f, id: idu, by: Some(x) });
+                    }
+                    probes.push(Op::Transfer { from: x, to: x.recipients()[0], id: idu, by: Some(x) });
+                    probes.push(Op::Burn { from: x, id: idu, by: Some(x) });
+                    cx.stats.count(&format!("probe: former {role} can no longer move the token after {kind}"), 1);
+                }
+                if pre.may_approve(id, x) && !post.may_approve(id, x) {
+                    probes.push(Op::Approve { approver: x, approved: x.approvables()[0], id: idu, live: max, by: Some(x) });
+                    if let Some(cur) = post.appr_live(id) {
+                        probes.push(Op::Approve { approver: x, approved: cur, id: idu, live: 0, by: Some(x) });
+                    }
+                    cx.stats.count(&format!("probe: former {role} can no longer approve after {kind}"), 1);
+                }
+                for p in probes {
+                    let accepted = self.exec(i, &p);
+                    cx.stats.count("probe-calls", 1);
+                    ensure!(
+                        !accepted,
+                        "lost-authority",
+                        "after {:?}, {:?} (before the step: {} of token {}) is by the model no longer entitled, yet {:?} succeeded [before: {}] [after: {}]",
+                        op,
+                        x,
+                        role,
+                        id,
+                        p,
+                        pre.describe(),
+                        post.describe()
+                    );
+                }
+            }
+        }
+        Ok(())
+    }
+}
+
 impl World for Nft {
     type Op = Op;
     type Model = Model;
@@ -530,9 +572,6 @@ impl World for Nft {
             appr: [None, None],
             oper: BTreeMap::new(),
             former_owner: Default::default(),
-            cleared_appr: Default::default(),
-            revoked_appr: Default::default(),
-            revoked_oper: BTreeSet::new(),
         };
         let max = i.e.ledger().max_live_until_ledger();
         for op in self.seed_ops(self.start, max) {
@@ -642,9 +681,19 @@ impl World for Nft {
                     v.push(Op::Transfer { from, to: from.recipients()[0], id: idu, by: Some(from) });
                 }
             }
+            // (spender, from) pairs: `from` is the owner (any spender), or the pair has some
+            // standing although `from` is not the owner — spender names himself, is a live
+            // operator of `from`, or is the token's live approved account; the remaining pairs
+            // (a stranger naming a non-owner) are doubly illegitimate and tried in 'wide' worlds only
+            let relevant = |spender: W, from: W| -> bool {
+                c.wide_refusals || o == Some(from) || spender == from || m.oper_live(from, spender) || m.appr_live(id) == Some(spender)
+            };
             // transfer_from(spender, from, to, id)
             for spender in ALL {
                 for from in ALL {
+                    if !relevant(spender, from) {
+                        continue;
+                    }
                     let legit = o == Some(from) && m.may_move(id, spender);
                     let to0 = if spender != from { spender } else { from.recipients()[0] };
                     if legit {
@@ -674,6 +723,9 @@ impl World for Nft {
             // burn_from(spender, from, id)
             for spender in ALL {
                 for from in ALL {
+                    if !relevant(spender, from) {
+                        continue;
+                    }
                     v.push(Op::BurnFrom { spender, from, id: idu, by: Some(spender) });
                     if o == Some(from) && m.may_move(id, spender) {
                         for by in others(spender) {
@@ -815,11 +867,13 @@ impl World for Nft {
             }
         }
         if ok {
+            let pre = m.clone();
             m.apply(op);
             // every getter of the property after every accepted call and every ledger advance
             // (a refused call leaves storage untouched — verified by the engine — and the getters
             // of this state were compared when it was reached)
             self.compare(i, m, &format!("{op:?}"), cx)?;
+            self.probe_lost_authority(i, &pre, m, op, cx)?;
         }
         Ok(ok)
     }
@@ -842,10 +896,18 @@ impl World for Nft {
     }
 }
 
+/// one finite lifetime (live at now+1, expired at now+2) plus the refused / revoking values
+const ONE_LIVE: [Live; 4] = [Live::Zero, Live::NowM1, Live::NowP1, Live::MaxP1];
+const TWO_LIVES: [Live; 5] = [Live::Zero, Live::NowM1, Live::NowP1, Live::Max, Live::MaxP1];
 const ALL_LIVES: [Live; 6] = [Live::Zero, Live::NowM1, Live::Now, Live::NowP1, Live::Max, Live::MaxP1];
 
 fn cfg_narrow(lives: &[Live]) -> Cfg {
-    Cfg { label: "narrow", lives: lives.to_vec(), cands: 2, self_to: false, holders_only: true, burn_leaf: true, wide_refusals: false }
+    let label = match lives.len() {
+        4 => "narrow-1live",
+        5 => "narrow-2lives",
+        _ => "narrow-3lives",
+    };
+    Cfg { label, lives: lives.to_vec(), cands: 2, self_to: false, holders_only: true, burn_leaf: true, wide_refusals: false }
 }
 
 fn cfg_wide() -> Cfg {
@@ -859,16 +921,15 @@ fn main() {
         let only = std::env::var("C11_ONLY").unwrap_or_default();
         let envd = |k: &str, d: usize| -> usize { std::env::var(k).ok().and_then(|x| x.parse().ok()).unwrap_or(d) };
         let flavours = [Flavour::Base, Flavour::Enumerable, Flavour::Consecutive];
-        let mut run = |r: &mut Runner, w: Nft, depth: usize, wall: u64| {
+        let run = |r: &mut Runner, w: Nft, depth: usize, wall: u64| {
             if only.is_empty() || w.name().contains(&only) {
                 r.world(&w, &Bounds::new(depth, wall));
             }
         };
         match tier {
             Tier::Quick => {
-                let lives = [Live::Zero, Live::NowM1, Live::NowP1, Live::Max, Live::MaxP1];
                 for f in flavours {
-                    run(r, Nft { flavour: f, cfg: cfg_narrow(&lives), start: 100, seeded: false }, envd("C11_D", 4), 40);
+                    run(r, Nft { flavour: f, cfg: cfg_narrow(&ONE_LIVE), start: 100, seeded: false }, envd("C11_D", 4), 40);
                 }
                 for f in flavours {
                     run(r, Nft { flavour: f, cfg: cfg_narrow(&ALL_LIVES), start: 100, seeded: true }, envd("C11_DS", 3), 40);
@@ -876,13 +937,16 @@ fn main() {
             }
             Tier::Thorough => {
                 for f in flavours {
-                    run(r, Nft { flavour: f, cfg: cfg_narrow(&ALL_LIVES), start: 100, seeded: false }, envd("C11_D", 5), 560);
+                    run(r, Nft { flavour: f, cfg: cfg_narrow(&ONE_LIVE), start: 100, seeded: false }, envd("C11_D", 5), 500);
                 }
                 for f in flavours {
-                    run(r, Nft { flavour: f, cfg: cfg_wide(), start: 100, seeded: false }, envd("C11_DW", 4), 560);
+                    run(r, Nft { flavour: f, cfg: cfg_narrow(&ALL_LIVES), start: 100, seeded: false }, envd("C11_D3", 4), 500);
                 }
                 for f in flavours {
-                    run(r, Nft { flavour: f, cfg: cfg_narrow(&ALL_LIVES), start: 100, seeded: true }, envd("C11_DS", 4), 560);
+                    run(r, Nft { flavour: f, cfg: cfg_wide(), start: 100, seeded: false }, envd("C11_DW", 3), 500);
+                }
+                for f in flavours {
+                    run(r, Nft { flavour: f, cfg: cfg_narrow(&TWO_LIVES), start: 100, seeded: true }, envd("C11_DS", 4), 500);
                 }
             }
         }
@@ -897,11 +961,8 @@ fn main() {
                     "move refused: signer is stranger",
                     "move refused: signer is nobody",
                     "move refused: signer is expired-approved",
-                    "move refused: signer is revoked-approved",
-                    "move refused: signer is former-approved(cleared-by-move)",
                     "move refused: signer is former-owner",
                     "move refused: signer is expired-operator",
-                    "move refused: signer is revoked-operator",
                     "move refused: signer is operator-of-former-owner",
                     "move refused: signer is operator-of-another-account",
                     "move refused: legitimate named principal, signed by somebody else",
@@ -912,7 +973,6 @@ fn main() {
                     "approve refused: signer is stranger",
                     "approve refused: signer is approved",
                     "approve refused: signer is expired-operator",
-                    "approve refused: signer is revoked-operator",
                     "approve refused: signer is former-owner",
                     "approve refused: signer is operator-of-former-owner",
                     "approve refused: legitimate named approver, signed by somebody else",
@@ -920,6 +980,20 @@ fn main() {
                     "approve_for_all refused: signed by the would-be operator",
                     "approve_for_all refused: signed by a third party",
                     "revoke_for_all refused: signed by a third party",
+                    "probe: former approved can no longer move the token after transfer",
+                    "probe: former approved can no longer move the token after transfer_from",
+                    "probe: former approved can no longer move the token after revoke",
+                    "probe: former approved can no longer move the token after approve",
+                    "probe: former approved can no longer move the token after advance",
+                    "probe: former operator can no longer move the token after transfer",
+                    "probe: former operator can no longer move the token after revoke_for_all",
+                    "probe: former operator can no longer move the token after advance",
+                    "probe: former owner can no longer move the token after transfer",
+                    "probe: former owner can no longer move the token after transfer_from",
+                    "probe: former operator can no longer approve after revoke_for_all",
+                    "probe: former operator can no longer approve after advance",
+                    "probe: former operator can no longer approve after transfer",
+                    "probe: former owner can no longer approve after transfer",
                     "getter: expired approval reads none",
                     "getter: expired operator reads false",
                 ]);
